@@ -122,17 +122,17 @@ theorem bound_ok (ext : Ext) (ty : RangeTy) (hty : ty ≠ .num) (b : Bound) (hb 
       show decodeType0 ext (le 8 (ofSigned 64 t.stored)) 1184 = _
       rw [decodeType0_eq _ _ _ (by decide), decodeType_1184 ext _ (by simp)]
       exact decTimestamp_enc t ht
-  | num k =>
+  | num n form =>
     have h' : ty = .num := by
       simp only [Bound.wf, Bool.and_eq_true, beq_iff_eq] at hb
-      exact hb.1.1
+      exact hb.1.1.1
     exact absurd h' hty
 
 def defaultBound : RangeTy → Bound
   | .int4 | .int8 => .int 0
   | .date => .date .posInf
   | .ts | .tstz => .ts .posInf
-  | .num => .num 1
+  | .num => .num (.fin false 0 0 [1]) .short
 
 theorem defaultBound_wf (ty : RangeTy) : (defaultBound ty).wf ty = true := by
   cases ty <;> decide
@@ -144,14 +144,39 @@ theorem idx_last (a : Bytes) (x : UInt8) : idx (a ++ [x]) ((a ++ [x]).length - 1
 theorem rangeElem_ty (ty : RangeTy) (hty : ty ≠ .num) : rangeElem ty.oid = some (elemOidOf ty, elemSizeOf ty) := by
   cases ty <;> first | rfl | exact absurd rfl hty
 
+/-- a bound of a fixed-width range type is never preceded by padding -/
+theorem boundPad_fixed (ty : RangeTy) (hty : ty ≠ .num) (b : Bound) (hb : b.wf ty = true) (k : Nat) : boundPad k b = [] := by
+  cases b with
+  | num n form =>
+    have h' : ty = .num := by
+      simp only [Bound.wf, Bool.and_eq_true, beq_iff_eq] at hb
+      exact hb.1.1.1
+    exact absurd h' hty
+  | _ => rfl
+
+/-- the view of a range of a fixed-width element type is the plain text of range_out -/
+theorem view_range_fixed (ty : RangeTy) (hty : ty ≠ .num) (flags : Nat) (lo hi : Bound) :
+    view (.range ty flags lo hi) = .str (rangeText flags lo hi) := by
+  cases ty <;> first | rfl | exact absurd rfl hty
+
 /-- decodeRange on the stored layout of any range of a fixed-width element type, for every flag byte -/
 theorem decodeRange_rt (ext : Ext) (ty : RangeTy) (hty : ty ≠ .num) (flags : Nat) (lo hi : Bound) (hf : flags < 32)
     (hlo : rangeHasLower flags = true → lo.wf ty = true) (hhi : rangeHasUpper flags = true → hi.wf ty = true) :
     decodeRange ext (enc (.range ty flags lo hi)) ty.oid = .ok (view (.range ty flags lo hi)) := by
   have hfb : (UInt8.ofNat flags).toNat = flags := u8_toNat flags (by omega)
+  rw [view_range_fixed ty hty]
+  have hpad : (if rangeHasUpper flags then
+        boundPad (4 + (if rangeHasLower flags then encBoundAs ty lo else []).length) hi ++ encBoundAs ty hi else []) =
+      (if rangeHasUpper flags then encBoundAs ty hi else []) := by
+    cases hu : rangeHasUpper flags
+    · rfl
+    · simp only [if_true]; rw [boundPad_fixed ty hty hi (hhi hu)]; rfl
   show decodeRange ext (le 4 ty.oid ++ (if rangeHasLower flags then encBoundAs ty lo else []) ++
-      (if rangeHasUpper flags then encBoundAs ty hi else []) ++ [UInt8.ofNat flags]) ty.oid
+      (if rangeHasUpper flags then
+        boundPad (4 + (if rangeHasLower flags then encBoundAs ty lo else []).length) hi ++ encBoundAs ty hi else []) ++
+      [UInt8.ofNat flags]) ty.oid
     = .ok (.str (rangeText flags lo hi))
+  rw [hpad]
   unfold decodeRange
   have hlen : ¬ (le 4 ty.oid ++ (if rangeHasLower flags then encBoundAs ty lo else []) ++
       (if rangeHasUpper flags then encBoundAs ty hi else []) ++ [UInt8.ofNat flags]).length < 5 := by
